@@ -6,7 +6,7 @@ inside RetryOutcome; the delivered stop reason)."""
 import runner_common as rc
 
 LEVEL = "proof"
-OPTS = {"p_metric": 0.85, "p_log": 0.7, "p_timeline": 0.7, "p_handler": 0.3, "p_abort": 0.6, "p_abort_true": 0.35, "p_rc": 0.7,
+OPTS = {"entries": rc.ENTRIES_NO_BREAKER, "p_metric": 0.85, "p_log": 0.7, "p_timeline": 0.7, "p_handler": 0.3, "p_abort": 0.6, "p_abort_true": 0.35, "p_rc": 0.7,
         "p_budget": 0.35}
 
 
